@@ -126,7 +126,7 @@ class C03Scenario(ChangeScenario):
                 # cycle was closed with last-handled := final state.
                 finished_before = any(final(p) and essence_ref(p['raw']) != E for hs in in_cycle.values() for after, p in hs)
                 finished_after = any(final(p) and essence_ref(p['raw']) == E for hs in in_cycle.values() for after, p in hs)
-                n_handlers = max(len(by_reason['create']), len(by_reason['update']))
+                n_handlers = max(len(by_reason['create']), len(by_reason['update']), len(in_cycle))   # resume handlers mixed into the cycle count
                 midcycle = finished_before and finished_after and lh == E and n_handlers >= 2
                 out.append(self.viol(
                     env, 'handler-missed-final-state',
@@ -179,6 +179,9 @@ def build(history: list[tuple[str, ...]], spacing: float, hset: int, fails: int,
     if hset == 1:
         handlers = [dict(id='c1', on='create', script=f + ['ok']), dict(id='u1', on='update', script=f + ['ok']),
                     dict(id='d1', on='delete', script=f + ['ok'])]
+    elif hset == 3:     # a resume handler that needs a retry takes part in whatever cycle the restart finds
+        handlers = [dict(id='c1', on='create', script=['ok']), dict(id='u1', on='update', script=['ok']),
+                    dict(id='r1', on='resume', script=f + ['ok']), dict(id='d1', on='delete', script=['ok'])]
     else:
         handlers = [dict(id='c1', on='create', script=['ok']), dict(id='c2', on='create', script=f + ['ok']),
                     dict(id='u1', on='update', script=f + ['ok']), dict(id='u2', on='update', script=['ok']),
@@ -195,9 +198,11 @@ def scenarios(tier: str) -> tuple[list[C03Scenario], list[C03Scenario], list[C03
         for spacing in (20.0, 0.0):
             for hset, fails in ((1, 1), (2, 1)) if tier == 'quick' else ((1, 0), (1, 2), (2, 1), (2, 2)):
                 hist.append(build(h, spacing, hset, fails, delays=False, early_user=False, time_dev=False))
+            if any(a[0] in ('restart', 'killrestart', 'down-edit') for a in h):
+                hist.append(build(h, spacing, 3, 1, delays=False, early_user=False, time_dev=False))
     crash = [build(h, 20.0, hset, 1, kills=True, delays=False, early_user=False, time_dev=False)
-             for h in histories(2 if tier == 'quick' else 3) for hset in (1, 2)]
-    timing = [build(h, 4.0, hset, 1, grid=2.0) for h in histories(1 if tier == 'quick' else 2) for hset in (1, 2)]
+             for h in histories(2 if tier == 'quick' else 3) for hset in (1, 2, 3)]
+    timing = [build(h, 4.0, hset, 1, grid=2.0) for h in histories(1 if tier == 'quick' else 2) for hset in (1, 2, 3)]
     return hist, crash, timing
 
 
